@@ -591,6 +591,30 @@ static void agg_case(Rng& rng, const char* tn) {
     cmp(plus, "operator+");
     cmp(rplus, "operator+");
     cmp(pe, "operator+=");
+    if (!verif::case_failed()) {
+        // The combined object is an Aggregate like any other: fed further values it must go on agreeing
+        // with the one that was fed everything (this is where a wrong hidden state shows, e.g. a NaN in
+        // the variance accumulator that variance() masks while count <= 1).
+        size_t nc = rng.below(6);
+        std::vector<T> C(nc);
+        for (auto& v : C) v = gen(offset + (rng.coin() ? shift : 0));
+        for (auto v : C) { plus.add(v); rplus.add(v); pe.add(v); all.add(v); A.push_back(v); }
+        n += nc;
+        sum = 0; maxabs = 0; first = true;
+        for (auto* V : { &A, &B })
+            for (auto v : *V) {
+                sum += v; maxabs = std::max(maxabs, fabsl((long double)v));
+                if (first) { lo = hi = v; first = false; }
+                lo = std::min<long double>(lo, v); hi = std::max<long double>(hi, v);
+            }
+        mean = n ? sum / n : 0; ss = 0;
+        for (auto* V : { &A, &B }) for (auto v : *V) ss += ((long double)v - mean) * ((long double)v - mean);
+        range = hi - lo;
+        cmp(plus, "operator+:then-add");
+        cmp(rplus, "operator+:then-add");
+        cmp(pe, "operator+=:then-add");
+        if (nc) verif::count("aggregate_combinations_fed_further_values");
+    }
     ++g_pairs;
     verif::cover(std::string("agg:") + tn + ":" + (na == 0 ? "A-empty" : na == 1 ? "A-one" : "A-many") +
                  ":" + (nb == 0 ? "B-empty" : nb == 1 ? "B-one" : "B-many") +
